@@ -324,4 +324,4 @@ def rule_f5(repo, res):
                            "as a path or a binary stream loads") if kind == "TEXT?" else \
                         f"{mname}.{fname} hands `{norm(a, 60)}` to decode_by_char and it is not a byte-level stream the rule knows"
                     res.add(Finding("F5", f"{mname}.{fname}", f"`{norm(call, 70)}`", msg, where=f"pvl/{mname}.py:{call.lineno}"))
-    res.floor("calls of decode_by_char", n, 3)
+    res.floor("calls of decode_by_char", n, 2)
